@@ -192,6 +192,13 @@ def run(chk):
         chk.compare(kind, mcases, impl, model)
         for c, i, (t, exp, facts) in zip(icases, impl, docs):
             check_fields(chk, c, i, exp, kind)
+        # the same documents in a fresh process that decoded one document of every other kind first: what a typed parser
+        # returns does not depend on what the process parsed before
+        ac = [("tdocafter", [kind.encode(), t]) for t, _, _ in docs[::4]]
+        ai = chk.run_impl(ac)
+        chk.record(kind + "-after-other-kinds", ac, ai)
+        for c, i, (t, exp, facts) in zip(ac, ai, docs[::4]):
+            check_fields(chk, c, i, exp, kind + " (after other document kinds were decoded in the same process)")
         # accessors
         acc = chk.run_impl([("taccess", [kind.encode(), t]) for t, _, _ in docs[::3]])
         for (t, exp, facts), a in zip(docs[::3], acc):
